@@ -9,6 +9,7 @@ func init() {
 		ruleGuardedBy(r, "C11.LCK1")
 		ruleStaleActs(r, "C11.LCK2")
 		ruleLockOrder(r, "C11.LCK3")
+		ruleLockBalance(r, "C11.LCK5")
 		rulePools(r, "C11.LCK4")
 		rulePoolEscape(r, "C11.LCK4")
 		ruleIDCounter(r, "C11.ID")
